@@ -249,7 +249,9 @@ fn check_edges(scratch: &Scratch, si: usize, tier: Tier, st: &mut Stats) {
     let cfile = dir.join("classes.txt");
     std::fs::write(&cfile, classes.iter().map(|c| format!("{}\n", c)).collect::<String>()).expect("write");
     let rfile = dir.join("restrictions.csv");
-    std::fs::write(&rfile, "edge_id,restriction_name,restriction_value,restriction_unit\n0,maximum_height,4.0,meters\n").expect("write");
+    // edge 0 carries two rows (a vehicle may meet one and exceed the other), edge 1 one
+    let restr_rows: Vec<(usize, &str, f64, &str)> = if m > 1 { vec![(0, "maximum_height", 4.0, "meters"), (0, "maximum_total_weight", 40000.0, "kg"), (1, "maximum_total_weight", 40000.0, "kg")] } else { vec![(0, "maximum_height", 4.0, "meters"), (0, "maximum_total_weight", 40000.0, "kg")] };
+    std::fs::write(&rfile, format!("edge_id,restriction_name,restriction_value,restriction_unit\n{}", restr_rows.iter().map(|(e, k, v, u)| format!("{},{},{},{}\n", e, k, v, u)).collect::<String>())).expect("write");
     // the plugin's measure: squared coordinate distance to the linestring centroid, in f32
     let centroids: Vec<(usize, f32, f32)> = geoms
         .iter()
@@ -263,6 +265,8 @@ fn check_edges(scratch: &Scratch, si: usize, tier: Tier, st: &mut Stats) {
     let parser: RoadClassParser = serde_json::from_value(json!({"mapping": {"even": 0, "odd": 1}})).unwrap_or_default();
     let vp_ok = json!({"height": [13.0, "feet"], "width": [2.5, "meters"], "total_length": [60.0, "feet"], "trailer_length": [15.0, "meters"], "total_weight": [9000.0, "kg"], "number_of_axles": 4});
     let vp_tall = json!({"height": [13.5, "feet"], "width": [2.5, "meters"], "total_length": [60.0, "feet"], "trailer_length": [15.0, "meters"], "total_weight": [9000.0, "kg"], "number_of_axles": 4});
+    let vp_heavy = json!({"height": [13.0, "feet"], "width": [2.5, "meters"], "total_length": [60.0, "feet"], "trailer_length": [15.0, "meters"], "total_weight": [50000.0, "kg"], "number_of_axles": 4});
+    let vp_tall_heavy = json!({"height": [13.5, "feet"], "width": [2.5, "meters"], "total_length": [60.0, "feet"], "trailer_length": [15.0, "meters"], "total_weight": [50000.0, "kg"], "number_of_axles": 4});
     let filters: Vec<(&str, Option<Value>, Option<Value>)> = vec![
         ("no_filter", None, None),
         ("classes_even", Some(json!([0])), None),
@@ -270,6 +274,8 @@ fn check_edges(scratch: &Scratch, si: usize, tier: Tier, st: &mut Stats) {
         ("vehicle_fits", None, Some(vp_ok.clone())),
         ("vehicle_too_tall", None, Some(vp_tall.clone())),
         ("classes_and_vehicle", Some(json!([0])), Some(vp_tall.clone())),
+        ("vehicle_too_heavy", None, Some(vp_heavy.clone())),
+        ("vehicle_too_tall_and_heavy", None, Some(vp_tall_heavy.clone())),
     ];
     let pts = query_points();
     for (ti, tol) in tolerances().iter().enumerate() {
@@ -308,7 +314,8 @@ fn check_edges(scratch: &Scratch, si: usize, tier: Tier, st: &mut Stats) {
                     };
                     let veh_ok = match qv {
                         None => true,
-                        Some(v) => !(*e == 0 && v["height"][0].as_f64().unwrap_or(0.0) > 13.2),
+                        // every row of the edge must be met
+                        Some(v) => restr_rows.iter().filter(|r| r.0 == *e).all(|(_, kind, limit, _)| if *kind == "maximum_height" { v["height"][0].as_f64().unwrap_or(0.0) * 0.3048 <= *limit } else { v["total_weight"][0].as_f64().unwrap_or(0.0) <= *limit }),
                     };
                     class_ok && veh_ok
                 })
@@ -400,7 +407,7 @@ pub fn run(tier: Tier) -> i32 {
         st,
         "state = one vertex set (subsets of a 3x3 lattice: sizes 1-4 and 7-9 quick, all 511 thorough) or edge set (every single edge and every pair of a 14-edge pool, sets of 7-14 records, all 14 with one bent edge; four geometry shapes: straight, slight bend, hairpin, detour; class table and one restricted edge); transition = one real plugin invocation for one query point of a 7x7 lattice reaching beyond the network (+3 far/odd points), with and without destination, under one tolerance (none, or 100/700/1300/5000 m expressed in m/km/mi/ft) and one road-class/vehicle filter; oracle = exhaustive scan under the plugin's own measure (squared f32 coordinate distance; to the linestring centroid for edges), tolerance by the code's haversine; non-trivial = more than one candidate",
         true,
-        json!({"vertex_sets": masks.len(), "edge_sets": n_sets, "query_points": query_points().len(), "tolerances": tolerances().len(), "filters": 6}),
+        json!({"vertex_sets": masks.len(), "edge_sets": n_sets, "query_points": query_points().len(), "tolerances": tolerances().len(), "filters": 8}),
         vec![
             "ties in the measure are accepted either way".into(),
             "cases within 2e-3 of the tolerance boundary are skipped (>= vs > is not prescribed)".into(),
